@@ -52,6 +52,7 @@ class Parsed:
         self.calls = []
         self.growth = []        # raw G lines (split)
         self.entries = []
+        self.builtins = []      # (accessor, node, its type)
         self.errors = []
         self.complete = False
 
@@ -94,6 +95,8 @@ def parse_probe(text):
             cur = None
         elif tag == 'E':
             P.entries.append(rest)
+        elif tag == 'B':
+            P.builtins.append(tuple(rest.split(' ')))
         elif tag == 'X':
             P.errors.append(rest)
         elif tag == 'END':
@@ -172,7 +175,8 @@ def flatten(P, call):
                 if o is not None and depth < DEPTH:
                     out.append((path + '.kind', '$' + o[0]))
                     for f, fv in o[1]:
-                        value(path + '.' + f, fv, depth + 1)
+                        if f != 'category':           # the category of a part is implied by its kind (property C06)
+                            value(path + '.' + f, fv, depth + 1)
                 return
         out.append((path, v))
 
@@ -232,6 +236,8 @@ def candidates(P, call, raw):
                         c.append('qmerge%d:%d' % (i, j))
         for i, a in enumerate(call.args):
             if a.startswith('"') and n == (len(a) - 1) // 2:
+                c.append('len%d' % i)
+            elif a.startswith('[') and a.endswith(']') and n == (len(split_top(a[1:-1])) if a != '[]' else 0):
                 c.append('len%d' % i)
             elif NODE.match(a):
                 o = lookup(P, call, a)
@@ -377,7 +383,11 @@ def row_text(row, cats):
         row['typ'] or 'none', ' '.join('%s=%s' % (p, s) for p, s in row['acc']))
 
 
-def lean_table(rows, cats):
+def builtin_types(P):
+    return [(acc, P.consts.get(t, 'unknown')) for acc, _, t in P.builtins]
+
+
+def lean_table(rows, cats, const_types=None, builtins=None):
     out = ['import IprModel.Graph',
            '/-! Factory wiring of the implementation, REGENERATED ON EVERY RUN by vlib/wiring_common.py from the output of',
            '    harness/c02probe.cxx (every factory called with distinguishable operands; see that file).  Do not edit. -/',
@@ -390,7 +400,11 @@ def lean_table(rows, cats):
             ', '.join(lean_str(s) for s in r['sorts']),
             'none' if r['typ'] is None else 'some (%s)' % lean_src(r['typ']), acc))
     out.append(',\n'.join(items))
-    out += [']', '', 'end Ipr.Generated', '']
+    out += [']', '', '/-- type() of the Lexicon constants, as observed (constant, its type) -/',
+            'def constTypes : List (Konst × Konst) := [' + ', '.join('(.k_%s, .k_%s)' % ct for ct in (const_types or [])) + ']',
+            '', '/-- type() of every built-in type accessor of the Lexicon -/',
+            'def builtinTypes : List (String × Konst) := [' + ', '.join('(%s, .k_%s)' % (lean_str(a), t) for a, t in (builtins or [])) + ']',
+            '', 'end Ipr.Generated', '']
     return '\n'.join(out)
 
 
@@ -486,3 +500,157 @@ def coverage(entry_keys):
         uncovered.append(k)
     unknown = sorted(k for k in exercised if k not in hdr)
     return hdr, uncovered, reasons, unknown
+
+
+def const_types(P):
+    """[(constant, constant that is its type() or 'unknown')] for every Lexicon constant that is an expression"""
+    out = []
+    for node, cname in P.consts.items():
+        o = P.obs.get(node)
+        if not o:
+            continue
+        t = dict(o[1]).get('type')
+        if t is None:
+            continue
+        out.append((cname, P.consts.get(t, 'unknown')))
+    return out
+
+
+# ------------------------------------------------------------------------------------------------ shared steps of the two checks
+
+class Sweep:
+    """One run of the probe over every factory (+ optional growth histories), parsed and classified."""
+
+    def __init__(self, rounds=1, seed=None, extra_ops=(), only=None):
+        ops = (['call ' + k for k in only] if only else ['all']) + list(extra_ops)
+        self.ops = ops
+        self.rc, self.out, self.err = run_probe(ops, rounds=rounds, seed=seed)
+        self.P = parse_probe(self.out)
+        self.cats = category_names()
+        self.rows = build_table(self.P)
+        self.crashed = self.rc != 0 or not self.P.complete
+
+    def lean_text(self):
+        return lean_table(self.rows, self.cats, const_types(self.P), builtin_types(self.P))
+
+    def regen(self):
+        return C.write_if_changed(GEN_PATH, self.lean_text())
+
+    def last_key(self):
+        return self.P.calls[-1].key if self.P.calls else None
+
+
+def expected_rows():
+    """The documented table as printed by the model driver: {key: row dict} and the key order; None if the driver is unavailable."""
+    try:
+        rc, out, err = C.run_model('c02', 'expected\n')
+    except C.BuildError:
+        return None, None
+    if rc != 0:
+        return None, None
+    rows = [parse_row_text(l) for l in out.splitlines() if ' | ' in l or l.endswith(' |')]
+    return {r['key']: r for r in rows}, [r['key'] for r in rows]
+
+
+def generated_row_dict(row, cats):
+    return parse_row_text(row_text(row, cats))
+
+
+def diff_rows(exp, gen):
+    """[(what, documented, implementation)] between two row dicts (same key)."""
+    d = []
+    for f in ('kind', 'cat', 'storage', 'sorts', 'type'):
+        if exp.get(f) != gen.get(f):
+            d.append((f if f != 'type' else 'type()', exp.get(f), gen.get(f)))
+    ea, ga = dict(exp['acc']), dict(gen['acc'])
+    for p, s in gen['acc']:
+        if ea.get(p) != s:
+            d.append((p, ea.get(p, '<not documented>'), s))
+    for p, s in exp['acc']:
+        if p not in ga:
+            d.append((p, s, '<not reported>'))
+    if not d and [p for p, _ in exp['acc']] != [p for p, _ in gen['acc']]:
+        d.append(('<order of accessors>', ','.join(p for p, _ in exp['acc']), ','.join(p for p, _ in gen['acc'])))
+    return d
+
+
+def describe_instances(P, row, path, limit=4):
+    """The argument vectors and what was observed under `path`, per instance (the replay of a wiring difference)."""
+    out = []
+    for c in row['calls'][:limit]:
+        _, fl = flatten(P, c)
+        d = dict(fl)
+        raw = d.get(path)
+        if raw is None and path == 'type()':
+            raw = d.get('type')
+        out.append('instance %d: args=[%s] result=%s observed %s=%s' % (c.inst, ' '.join(c.args), c.result, path, raw))
+    return out
+
+
+def instance_oracle(P, rows, exp):
+    """The statement of C02 evaluated on every single call of the implementation trace: the documented source of every
+    accessor must explain the value observed for exactly these operands.  Returns [(key, inst, path, documented, raw)]."""
+    bad = []
+    for row in rows:
+        e = exp.get(row['key'])
+        if e is None:
+            continue
+        doc = dict(e['acc'])
+        doc['type'] = e['type']
+        for c in row['calls']:
+            _, fl = flatten(P, c)
+            for p, raw in fl:
+                if p == 'category' or p not in doc:
+                    continue
+                if doc[p] == 'none':
+                    continue
+                if doc[p] not in candidates(P, c, raw):
+                    bad.append((row['key'], c.inst, p, doc[p], raw))
+    return bad
+
+
+def model_ops(P, rows):
+    """Driver input replaying every call on the model + what the implementation reported, per call:
+       [(call, [(path, value)])] with values in the driver's vocabulary."""
+    ops, expect = [], []
+    known_env = {}
+    for row in rows:
+        for c in row['calls']:
+            if not NODE.match(c.result) or c.result[0] != 'n' or int(c.result[1:]) < c.w:
+                continue                       # by-value results and nodes that existed before the call are not replayed
+            for a in c.args:
+                if NODE.match(a):
+                    o = lookup(P, c, a)
+                    if o is None:
+                        continue
+                    fields = ['%s=%s' % (f, const_or(P, v)) for f, v in o[1] if f in HOPS and ' ' not in v]
+                    line = 'env %s %s %s' % (a, o[0], ' '.join(fields))
+                    if known_env.get(a) != line:
+                        known_env[a] = line
+                        ops.append(line)
+            ops.append('call %s %s %s' % (c.key, c.result, ' '.join(const_or(P, a) for a in c.args)))
+            _, fl = flatten(P, c)
+            expect.append((c, [(p, const_or(P, v)) for p, v in fl if p != 'category']))
+    return ops, expect
+
+
+def const_or(P, v):
+    return 'const:' + P.consts[v] if v in P.consts else v
+
+
+def parse_model_R(line):
+    parts = line.split(' ')
+    out = []
+    for p in parts[2:]:
+        i = p.find('=')
+        out.append((p[:i], p[i + 1:]))
+    return parts[1], out
+
+
+def src_histogram(rows):
+    h = {}
+    for r in rows:
+        for _, s in r['acc'] + ([('type', r['typ'])] if r['typ'] else []):
+            k = re.sub(r'[\d:].*$', '', s)
+            h[k] = h.get(k, 0) + 1
+    return dict(sorted(h.items()))
